@@ -77,7 +77,17 @@ def main(chk: core.Check, replay):
     chk.add_tlc(res)
     if not recs:
         raise core.MachineryFailure("Cli.tla emitted nothing")
-    cases = clicase.stratified(recs, 25 if quick else 250, chk.seed)
+    cases = clicase.stratified(recs, 12 if quick else 120, chk.seed)
+    falsy = {"delta=0": 0, "stiff=[]": 0, "scheme=[]": 0}
+    for c in cases:
+        cfgv = c["config"]
+        if cfgv["present"] and c["model"] == "valid":
+            falsy["delta=0"] += cfgv["delta"] == "0" and any("rush_larsen" in s for s in c["eff"]["scheme"])
+            falsy["stiff=[]"] += cfgv["stiff"] == [] and "hybrid_rush_larsen" in c["eff"]["scheme"]
+            falsy["scheme=[]"] += cfgv["scheme"] == [] and bool(c["flags"]["scheme"])
+    chk.extra["set_but_falsy_config_values_where_they_matter"] = falsy
+    if not all(falsy.values()):
+        raise core.MachineryFailure(f"no invocation with a set-but-falsy configuration value where it matters: {falsy}")
     out = clicase.replay(cases, chk.nproc)
     chk.replayed += len(out)
     by_cmd = {}
